@@ -30,8 +30,10 @@ func TestVerif_C12(t *testing.T) {
 	run := func(stream string, n int, p vwsParams) {
 		r.CasesParallel(stream, n, 0, func(c *verifrt.Case) {
 			cfg := vwsC12Configs[c.Index%len(vwsC12Configs)]
-			h := vwsNewHist(c, r, cfg, p)
-			h.run()
+			h := vwsRunGuarded(c, r, cfg, p)
+			if h == nil {
+				return
+			}
 			nt := h.nCloseQueued > 0 && h.nPopsAfterCloseQueued >= 10
 			r.Eval(nt, h.signature())
 			if nt {
